@@ -33,14 +33,17 @@ Anything outside the subset raises `Unsupported` naming the AST node: a broken o
 
 v3 (job sets C14 BITS_JOBS and C12 DURCAST_JOBS; the older job sets do not reach any of it): shifts and bit operators
 (`<< >> & | ^ ~`: Tetl/CSemBits.lean; every shift adds the obligation `shiftOk <width of the promoted left operand> <count>`
-to `_ub`; a conversion to `long double` of an integer is the identity and `long double` arithmetic is exact real = Int
-arithmetic is NOT claimed: such nodes are refused), `if (init; cond)`, `sizeof`, non-`const` locals, calls that return `bool`,
+to `_ub`; on an unsigned result type the bit operators act on the non-negative values, on a signed one through the two's
+complement representation), `if (init; cond)`, `;`, `sizeof`, `bool` parameters, calls that return `bool`,
 `__builtin_add_overflow(a, b, &r)` (documented semantics, CSemBits.addOverflowVal / addOverflowFlag: `r` is re-bound),
 references to `static constexpr` data members / variables (folded by `const_eval` from their initialisers in the same AST),
 "whole TU" mode (`translate(..., whole_tu=True)`: ONE clang run without `-ast-dump-filter`, so declaration ids are
 comparable across jobs; candidates are found by qualified name exactly as clang's filter does), `externs` (functions that
-stay hand-modelled — loops — are called through a Lean name declared in the prelude of the generated file), and
-specializations selected by several template arguments (`targs_are`), value arguments included.
+stay hand-modelled — loops — are called through a Lean name declared in the prelude of the generated file),
+specializations selected by several template arguments (`targs_are`), the job kind "MemberSpec m" (a specialization of the
+member function template `m` of a class template specialization), `symbolic` static data members (left as Lean parameters
+of the generated function: `CF::num`, `CF::den` of DURCAST_JOBS) and `rep_classes` (`duration<Rep, Period>` is a one-field
+class over its own `Rep`; its constructor from a number is the conversion to `Rep`).
 """
 import json
 import os
